@@ -235,10 +235,15 @@ void harness(void)
                "C07.classify.write-error-response-with-payload-accepted.reach");
 #else
 #if defined(MODE_FLIP1) || defined(MODE_FLIP2) || defined(MODE_BURST)
-#ifndef VP_KFC_burst_hdcrc_boundary
+    /* with the first damaged octet fixed by the driver only one of the two checksums can be the one that notices:
+     * octets up to 15 (header fields and both checksum words) are covered by the header checksum, which is verified
+     * first; from octet 16 on only the payload checksum sees the damage */
+#if !defined(VP_KFC_burst_hdcrc_boundary) && (!defined(FIRST_OCTET) || FIRST_OCTET >= 16)
     VP_WITNESS(mf.error.id == EPROTO && ref_is_request(rf.type), "C07.damage.payload-crc-detects.reach");
 #endif
+#if !defined(FIRST_OCTET) || FIRST_OCTET <= 15
     VP_WITNESS(mf.error.id == EILSEQ, "C07.damage.header-crc-detects.reach");
+#endif
 #endif
 #if defined(MODE_FLIP1) || defined(MODE_TRUNC)
     VP_WITNESS(mf.error.id == EBADMSG, "C07.damage.header-encoding-detects.reach");
